@@ -213,6 +213,7 @@ def main(modname: str, argv=None):
         "ops_validated": 0,
         "cvc5_checked": 0,
         "cvc5_disagree": 0,
+        "cvc5_unknown": 0,
     }
     hashes = set()
     nontrivial_hashes = set()
@@ -224,9 +225,10 @@ def main(modname: str, argv=None):
     for i in sorted(results):
         r = results[i]
         st = r.get("status")
-        for k in ("obligations", "discharged", "syntactic", "queries", "paths", "refused", "ops_validated", "cvc5_checked", "cvc5_disagree"):
+        for k in ("obligations", "discharged", "syntactic", "queries", "paths", "refused", "ops_validated", "cvc5_checked", "cvc5_disagree", "cvc5_unknown"):
             agg[k] += int(r.get(k, 0))
         agg["solver_s"] += float(r.get("solver_s", 0.0))
+        agg["twins"] = agg.get("twins", 0) + int(r.get("twins", 0))
         for s in r.get("stubs", []):
             stubs.add(s)
         h = r.get("hash")
@@ -289,6 +291,7 @@ def main(modname: str, argv=None):
         "ops_translator_validated": agg["ops_validated"],
         "cvc5_crosschecked": agg["cvc5_checked"],
         "cvc5_disagreements": agg["cvc5_disagree"],
+        "cvc5_undecided": agg["cvc5_unknown"],
         "functions_encoded": sorted(funcs),
         "bounds": getattr(mod, "BOUNDS", ""),
         "outside_claim": getattr(mod, "OUTSIDE", ""),
@@ -301,6 +304,7 @@ def main(modname: str, argv=None):
         "disagreements_checked": n_viol + n_known,
         "explanation": getattr(mod, "EXPLANATION", ""),
         "exhaustive": False,
+        "vacuity_twins_refuted": agg.get("twins", 0),
         "slowest_cases": [{"wall_s": w, "case": c} for w, c in sorted(slow, reverse=True)[:8]],
         "states": max(1, agg["paths"]),
         "transitions": max(1, agg["queries"]),
